@@ -18,7 +18,7 @@ RULE = ("cases = (first message: CONNECT with a handshake payload shape x valida
         "at least one INVOKE follows the first message")
 ASSUMPTIONS = ["for an unknown serializer id or an exception whose __str__ raises the statement promises no reason: only 'nothing ran' and 'closed' are required",
                "pre-connected socket pairs are exempt and not exercised", "'is closed' = EOF/RST observed within a 10 s watchdog"]
-REQUIRED_REACH = ["sibling_refusals_ok", "reused_tickets_refused", "refused_ok", "accepted_ok", "pipelined_invokes_sent", "validator_raised", "wrong_first_type", "unknown_object", "malformed_first"]
+REQUIRED_REACH = ["sibling_refusals_ok", "baseexception_validators_ok", "reused_tickets_refused", "refused_ok", "accepted_ok", "pipelined_invokes_sent", "validator_raised", "wrong_first_type", "unknown_object", "malformed_first"]
 SHARD_TIMEOUT = {"quick": 240, "thorough": 2800}
 
 
@@ -453,6 +453,62 @@ def decode_reason(P, m):
         return "<undecodable: %r>" % (x,)
 
 
+class NotAnOrdinaryException(BaseException):
+    pass
+
+
+def baseexception_phase(P, servertype, rec, r):
+    """validators that raise something outside the Exception hierarchy (SystemExit, GeneratorExit, an application's own BaseException).
+    By Python's convention those are not errors to be answered but signals to be propagated, so neither a reason nor an orderly close is
+    demanded of the daemon here (on the unchanged tree the serving worker thread / the multiplex loop ends); what the statement still
+    demands is its core: nothing is invoked for that connection and it is never told CONNECTOK. One throw-away daemon per case."""
+    for exc in (SystemExit, NotAnOrdinaryException, GeneratorExit):
+        for pipelined in (True, False):
+            fx, log = make_env(P, servertype)
+            try:
+                def validator(conn, data, exc=exc):
+                    log.add("validator", "raises " + exc.__name__)
+                    raise exc("refused by raising " + exc.__name__)
+                fx.daemon.hs_validator = validator
+                ser = P.serializers.serializers[r.choice(fixture.SERIALIZERS)]
+                pay = {"baseexception": exc.__name__, "pipelined": pipelined, "servertype": servertype}
+                rec.case(("baseexc", exc.__name__, pipelined, servertype), nontrivial=True)
+                c = wire.RawClient(fx.location, timeout=1.0)
+                connect = wire.encode(wire.CONNECT, 0, 0, ser.serializer_id, ser.dumps({"handshake": {"mode": "accept"}, "object": "marker"}))
+                inv = invoke_bytes(P, ser, "marker", "mark", ("base-" + exc.__name__,), 1)
+                first = None
+                try:
+                    if pipelined:
+                        c.send(connect + inv)
+                    else:
+                        c.send(connect)
+                    try:
+                        first = c.recv_msg()
+                    except Exception:
+                        first = None
+                    if not pipelined:
+                        try:
+                            c.send(inv)
+                        except OSError:
+                            pass
+                    time.sleep(0.25)
+                finally:
+                    c.close()
+                ran = [e for e in log.of("exec") if e[2] == "mark"]
+                if ran or (first is not None and first.type == wire.CONNECTOK):
+                    rec.violation("executed-without-handshake", "the validator raised %s, yet the connection %s and %d call(s) ran: %r" % (
+                        exc.__name__, "was told CONNECTOK" if first is not None and first.type == wire.CONNECTOK else "got no CONNECTOK", len(ran), ran), pay)
+                else:
+                    rec.count("baseexception_validators_ok")
+            finally:
+                fixture.take_faults()         # the worker thread / loop that propagated the signal: expected, not a fault of this check
+                try:
+                    fx.sibling.stop()
+                    fx.stop()
+                except Exception:
+                    pass
+
+
 def plan(tier, seed):
     per = 400 if tier == "quick" else 3000
     n = 4 if tier == "quick" else 8
@@ -480,6 +536,8 @@ def run_shard(shard, rec):
     finally:
         fx.sibling.stop()
         fx.stop()
+    if shard["i"] < 2:
+        baseexception_phase(P, shard["servertype"], rec, r)
 
 
 def replay(payload, rec):
@@ -487,7 +545,9 @@ def replay(payload, rec):
     st = payload.pop("servertype", "thread")
     fx, log = make_env(P, st)
     try:
-        if payload.get("sibling_probe"):
+        if payload.get("baseexception"):
+            baseexception_phase(P, st, rec, gen.rng(0, "replay"))
+        elif payload.get("sibling_probe"):
             with fx.proxy("marker") as p:
                 p._pyroHandshake = {"mode": "accept", "token": "warmup"}
                 p.mark("warmup")          # the main daemon admits a connection first
